@@ -83,6 +83,23 @@ def job_family(args):
     return out
 
 
+def job_long(args):
+    """tracks of a few hundred fixes on which Douglas-Peucker peels one fix per level (saw-tooth, spike train, staircase):
+    the depth of the recursion is of the order of the number of fixes (kept below the interpreter's own limit)"""
+    n, shape = args
+    if shape == "saw":
+        pts = [(i, 3 * (i % 2)) for i in range(n)]
+    elif shape == "spikes":
+        pts = [(i, 3 if i % 4 == 1 else 0) for i in range(n)]
+    else:
+        pts = [(3 * ((i + 1) // 2), 3 * (i // 2)) for i in range(n)]          # staircase: steps of 3 across, 3 up
+    out = []
+    for tol in (Fraction(2), Fraction(6, 5)):
+        out.append(call(pts, tol, "dp"))
+    out.append(call(pts, Fraction(2), "visv"))
+    return out
+
+
 def job_random(args):
     seed, count = args
     rnd = random.Random(seed)
@@ -139,7 +156,8 @@ def run(ctx):
                 "tracks of 2-12 fixes (duplicates, collinear runs, revisits, closed loops) x 10 tolerances; outputs recorded "
                 "as kept input positions and judged by AcceptSimplification. Non-trivial = distinct (track, tolerance, mode) "
                 "with a closed loop, a duplicate or at least one dropped fix." % (mf, ))
-    ctx.assumptions += ["integer coordinates 0..8; tolerances are rationals (squared tolerance exact)",
+    ctx.assumptions += ["integer coordinates 0..8 (long saw-tooth / spike / staircase tracks: to 450); tolerances are rationals (squared tolerance exact)",
+                        "tracks stay below ~300 fixes: Douglas-Peucker is recursive and one level per fix would reach the interpreter's recursion limit near 1000",
                         "fixes are identified by a z / timestamp tag (x, y may repeat)"]
     c = ctx.write_cfg("SI.cfg", mc_cfg(mf))
     ctx.tlc_mc("Simplify", c, label="Simplify design check, 2..%d fixes" % mf, timeout=3000)
@@ -155,6 +173,9 @@ def run(ctx):
             jobs.append((job_family, (n, first)))
     for k in range(32):
         jobs.append((job_random, (ctx.seed * 41 + k, 60 if quick else 4000)))
+    for n, shape in ([(260, "saw"), (300, "spikes")] if quick else
+                     [(n, sh) for n in (171, 230, 260, 300) for sh in ("saw", "spikes", "stairs")]):
+        jobs.append((job_long, (n, shape)))
     events = []
     with mp.get_context("fork").Pool(16, initializer=core._pool_init, initargs=(None,)) as pool:
         res = [pool.apply_async(f, (a,)) for f, a in jobs]
